@@ -38,6 +38,7 @@ type Obl struct {
 	Expect string // "unsat" (valid) or "sat" (cover)
 	Path   string
 	Where  string
+	Site   string // return site (ensures) — part of a finding's identity
 	Exec   *Exec
 	// result
 	Status  string // proved refuted unknown covered uncovered
